@@ -37,11 +37,15 @@ def run(run, env, prop, gen_args=(), key_prefix="model-vs-impl", extra_ties=("Pa
             ok = False
             run.notes.append("case file failed to evaluate: %s: %s" % (os.path.basename(f), out[-600:]))
             continue
+        codes = CODES
+        if "srv" in os.path.basename(f):
+            from props import _batches
+            codes = dict((k, "through the server: " + v) for k, v in _batches.CODES.items())
         for wid, code in r:
             ok = False
             lab = labels.get(str(wid), "")
-            run.violation("%s:%s" % (key_prefix, CODES.get(code, code)),
-                          "world %d (%s): %s between the proved model and the implementation" % (wid, lab, CODES.get(code, code)),
+            run.violation("%s:%s" % (key_prefix, codes.get(code, code)),
+                          "world %d (%s): %s between the proved model and the implementation" % (wid, lab, codes.get(code, code)),
                           dict(world_id=wid, label=lab, code=code, case_file=f, world=extract_world(f, wid),
                                how="bin/check %s --replay <this file> re-evaluates the world in Coq; the Gallina record lists every token, the context and what the implementation did" % prop))
     run.obligation("correspondence: model = implementation on every generated world", ok)
